@@ -11,7 +11,7 @@ if ! (cd "$d" && patch -p1 -s --dry-run < "$patch" >/dev/null 2>&1); then
 fi
 if ! (cd "$d" && patch -p1 -s < "$patch"); then echo "PATCH-FAILED $patch"; rm -rf "$d"; exit 3; fi
 mkdir -p "$d/.verif-out"; cp /verif/known_findings.json /verif/refsigs.json "$d/.verif-out/" 2>/dev/null
-/verif/bin/gnmiverif -repo "$d" -verif "$d/.verif-out" -property "$prop" -tier "$tier" -noselftest | sed "s#$d/##g"
+${GNMIVERIF_BIN:-/verif/bin/gnmiverif} -repo "$d" -verif "$d/.verif-out" -property "$prop" -tier "$tier" -noselftest | sed "s#$d/##g"
 rc=${PIPESTATUS[0]}
 rm -rf "$d"
 exit $rc
